@@ -83,20 +83,19 @@ func alphabet(quick bool) []op {
 	for _, a := range []string{"1", "2", "L-1", "L", "L+1"} {
 		ops = append(ops, op{Kind: "adv", Adv: a})
 	}
-	if quick {
-		ops = append(ops,
-			op{Kind: "upd", Cat: 1, Client: "10.0.0.1", Domain: "a.example"},
-			op{Kind: "upd", Cat: 2, Client: "10.0.0.1", Domain: "a.example"},
-			op{Kind: "upd", Cat: 3, Client: "10.0.0.1", Domain: "b.example", Ups: true},
-			op{Kind: "upd", Cat: 4, Client: "10.0.0.2", Domain: "a.example"},
-			op{Kind: "upd", Cat: 5, Client: "10.0.0.2", Domain: "b.example"},
-		)
-	} else {
-		for cat := 1; cat <= 5; cat++ {
-			ops = append(ops, op{Kind: "upd", Cat: cat, Client: "10.0.0.1", Domain: "a.example"})
-			ops = append(ops, op{Kind: "upd", Cat: cat, Client: "10.0.0.2", Domain: "b.example", Ups: cat%2 == 1})
-		}
-	}
+	// Updates: every result category once; clients and domains (2 each) and
+	// upstream statistics are spread over them - they only feed the top_*
+	// lists, which are not part of the property, so a full product would only
+	// multiply states that the oracle cannot tell apart.  The same alphabet is
+	// used in both tiers; the tiers differ in depth.
+	_ = quick
+	ops = append(ops,
+		op{Kind: "upd", Cat: 1, Client: "10.0.0.1", Domain: "a.example"},
+		op{Kind: "upd", Cat: 2, Client: "10.0.0.1", Domain: "a.example"},
+		op{Kind: "upd", Cat: 3, Client: "10.0.0.1", Domain: "b.example", Ups: true},
+		op{Kind: "upd", Cat: 4, Client: "10.0.0.2", Domain: "a.example"},
+		op{Kind: "upd", Cat: 5, Client: "10.0.0.2", Domain: "b.example"},
+	)
 	ops = append(ops, op{Kind: "restart"})
 	ops = append(ops, op{Kind: "clear"})
 	for _, h := range []uint32{1, 2, 3, 24, 192} {
@@ -376,6 +375,9 @@ var seriesIdx = []int{0, 2, 3, 5}
 type readInfo struct {
 	maybeHours int
 	daysMode   bool
+	// oldestCounted: the oldest hour of a window of >= 2 hours holds counted
+	// queries that must be reported (the "limit-1 rollovers, then read" shape).
+	oldestCounted bool
 }
 
 // checkRead compares one decoded API response with the reference.  It returns
@@ -398,6 +400,7 @@ func checkRead(m *model, r *statsJSON) (vkey, vdesc string, info readInfo) {
 		}
 	}
 	info.maybeHours = len(maybe)
+	info.oldestCounted = m.limit > 1 && len(must) > 0 && must[0] == lo
 
 	var minT, maxT [6]uint64
 	for _, h := range must {
@@ -614,9 +617,18 @@ func execOps(hist []op) (st lib.Step) {
 	if err != nil {
 		return fail("new-failed", "stats.New on an empty directory: %v", err)
 	}
+	// restartedInHour: a restart happened inside an hour that holds counts and
+	// that hour is still the current unit.
+	restartedInHour := false
 	for i, o := range hist {
 		err = x.apply(o, m)
 		m.apply(o)
+		switch o.Kind {
+		case "restart":
+			restartedInHour = m.hours[m.cur] != nil
+		case "flush", "clear":
+			restartedInHour = restartedInHour && m.hours[m.cur] != nil
+		}
 		if err != nil {
 			return fail("op-failed:"+o.Kind, "operation %d (%s) failed: %v", i, o.label(), err)
 		}
@@ -640,6 +652,12 @@ func execOps(hist []op) (st lib.Step) {
 	}
 	if m.clock != m.cur {
 		c.Count("reads_pending_rollover", 1)
+		if restartedInHour {
+			c.Count("reads_pending_rollover_after_restart_in_hour", 1)
+		}
+	}
+	if info.oldestCounted {
+		c.Count("reads_oldest_window_hour_counted", 1)
 	}
 	d, err := stats.VerifDump(x.s)
 	if err != nil {
@@ -683,8 +701,19 @@ func phaseBFS(c *lib.Ctx) {
 	for i := range ops {
 		refs[i] = opRef(i)
 	}
-	b := &lib.BFS[opRef]{C: c, Ops: refs, Exec: exec, MaxDepth: depth, Workers: runtime.GOMAXPROCS(0), Confirm: true}
+	// Shards are dealt by the first operation and are unequal (update-first
+	// subtrees are the largest, no-op-first ones are empty), so each shard gets
+	// 4 workers: oversubscribed while all shards run, but the heavy shards can
+	// use the cores that the light ones free.
+	workers := 4
+	if runtime.GOMAXPROCS(0) < workers {
+		runtime.GOMAXPROCS(workers)
+	}
+	b := &lib.BFS[opRef]{C: c, Ops: refs, Exec: exec, MaxDepth: depth, Workers: workers, Confirm: true}
 	b.Run()
+	if !c.Expired() {
+		c.Count("bfs_shards_completed_all_depths", 1)
+	}
 }
 
 func replayBFS(c *lib.Ctx, raw json.RawMessage) string {
